@@ -284,4 +284,8 @@ def run(chk):
     chk.sample({"document": items[len(names) + 3][1], "qml": built[items[len(names) + 3][0]][0], "expected_places": exp[items[len(names) + 3][0]]["places"]["generate"]})
     binding_map_leg(chk)
     ablation_leg(chk)
+    # "takes effect" over time: after an edit that touches only dynamic bindings / handlers (the form stays byte-identical) and a second run in place,
+    # the support header on disk is the one of the edited source (the leg is shared with C13)
+    from checks import c13
+    c13.cli_regeneration(chk)
     chk.cov["trusted_base"] = ["expat + regex detectors in vlib/catalog.py", "TLC", "Pipeline.tla", "os.stat / sha1 for the output directory"]
